@@ -59,6 +59,10 @@ let dbg_of s = s = "1"
 let so f = function None -> "panic" | Some x -> f x
 let soo f = function None -> "panic" | Some None -> "~" | Some (Some x) -> f x
 
+let all_positions = [BeforeScheme; AfterScheme; BeforeUsername; AfterUsername; BeforePassword; AfterPassword;
+                     BeforeHost; AfterHost; BeforePort; AfterPort; BeforePath; AfterPath;
+                     BeforeQuery; AfterQuery; BeforeFragment; AfterFragment]
+
 let handle = function
   | ["parse"; dbg; ovr; base; input] ->
     let b = parse_opt parse_url_tok base in
@@ -72,6 +76,56 @@ let handle = function
       soo show_n (port_or_known_default u); so show_list (path u);
       soo (fun segs -> String.concat "|" (List.map show_list segs)) (path_segments u);
       soo show_list (query d u); soo show_list (fragment d u); so show_bool (is_special u) ]
+  | "op" :: dbg :: u :: name :: args ->
+    let d = dbg_of dbg and u = parse_url_tok u in
+    let hp = o_host_parse and ho = o_host_parse_opaque and hd = o_host_display in
+    let st = function SOk -> "ok" | SErrUnit -> "errunit" | SErr e -> "err" ^ show_n (parse_error_code e) in
+    let r1 = function None -> "panic" | Some u' -> show_url u' ^ " ok" in
+    let r2 = function None -> "panic" | Some (u', s) -> show_url u' ^ " " ^ st s in
+    let l i = parse_list (List.nth args i) in
+    let lo i = parse_opt parse_list (List.nth args i) in
+    (match name with
+     | "set_fragment" -> r1 (set_fragment d u (lo 0))
+     | "set_query" -> r1 (set_query d u (lo 0))
+     | "set_path" -> r1 (set_path d u (l 0))
+     | "set_port" -> r2 (set_port d u (parse_opt parse_n (List.nth args 0)))
+     | "set_host" -> r2 (set_host d hp ho hd u (lo 0))
+     | "set_ip_host" -> r2 (set_ip_host d hd u (parse_host_tok (List.nth args 0)))
+     | "set_password" -> r2 (set_password d u (lo 0))
+     | "set_username" -> r2 (set_username d u (l 0))
+     | "set_scheme" -> r2 (set_scheme d u (l 0))
+     | "psm" ->
+       let op s = match s.[0] with
+         | 'c' -> PClear | 'e' -> PPopIfEmpty | 'p' -> PPop
+         | 'u' -> PPush (parse_list (String.sub s 1 (String.length s - 1)))
+         | 'x' -> let a = String.sub s 1 (String.length s - 1) in
+           PExtend (if a = "" then [] else List.map parse_list (String.split_on_char ';' a))
+         | _ -> failwith "bad psm op" in
+       r2 (path_segments_session d u (List.map op args))
+     | "q_set_protocol" -> r2 (q_set_protocol d u (l 0))
+     | "q_set_username" -> r2 (q_set_username d u (l 0))
+     | "q_set_password" -> r2 (q_set_password d u (l 0))
+     | "q_set_host" -> r2 (q_set_host d hp ho hd u (l 0))
+     | "q_set_hostname" -> r2 (q_set_hostname d hp ho hd u (l 0))
+     | "q_set_port" -> r2 (q_set_port d u (l 0))
+     | "q_set_pathname" -> r1 (q_set_pathname d u (l 0))
+     | "q_set_search" -> r1 (q_set_search d u (l 0))
+     | "q_set_hash" -> r1 (q_set_hash d u (l 0))
+     | _ -> failwith "unknown op")
+  | ["pos"; dbg; u] ->
+    let d = dbg_of dbg and u = parse_url_tok u in
+    String.concat " " (List.map (fun p -> so show_n (position_index d u p)) all_positions)
+  | ["ranges"; dbg; u] ->
+    let d = dbg_of dbg and u = parse_url_tok u in
+    String.concat " " (List.concat_map (fun a ->
+        so show_list (index_from d u a) :: so show_list (index_to d u a)
+        :: List.map (fun b -> so show_list (index_range d u a b)) all_positions) all_positions)
+  | ["qget"; dbg; u] ->
+    let d = dbg_of dbg and u = parse_url_tok u in
+    String.concat " " [ show_list (q_href u); so show_list (q_protocol u); so show_list (q_username d u);
+                        so show_list (q_password d u); so show_list (q_host d u); so show_list (q_hostname u);
+                        so show_list (q_port d u); so show_list (q_pathname u); so show_list (q_search d u);
+                        so show_list (q_hash d u) ]
   | _ -> failwith "unknown request"
 
 let () = main_loop handle
